@@ -16,6 +16,7 @@ import (
 
 	"verif/corpus"
 	"verif/ev"
+	"verif/oneline"
 	"verif/tc"
 	"verif/tgen"
 )
@@ -324,6 +325,25 @@ func TestPropSeeds(t *testing.T) {
 			fail(t, sd.Text, fmt.Errorf("%s: %w", sd.Name, err))
 		}
 	}
+}
+
+// TestPropLayouts enumerates the layout family (package oneline): expressions, parameter lists,
+// statement heads and attribute lists with every placement of blanks and line breaks between
+// their tokens. Members the parser rejects exercise totality, the others position faithfulness.
+func TestPropLayouts(t *testing.T) {
+	shard, shards := ev.Shard()
+	gaps := oneline.QuickGaps
+	if ev.Thorough() {
+		gaps = oneline.ThoroughGaps
+	}
+	n := 0
+	oneline.EachLayout(shard, shards, gaps, func(name, src string) {
+		n++
+		if err := decide(src, nil, false); err != nil {
+			fail(t, src, fmt.Errorf("layout %s: %w", name, err))
+		}
+	})
+	recPos.ClassN("layout family (enumerated completely)", n)
 }
 
 var cutAfter = []string{"if", "else", "else if", "for", "switch", "case", "default", "default:", "templ", "script", "css", "import", "package", "@", "{{", "...", "children", "range", "func", "={", "?={", "{!", "<!--", "<script", "<style", "</"}
